@@ -850,8 +850,13 @@ def run(ck: Check):
                 elif a["classes"] != b["classes"]:
                     dc = first_diff(a["classes"], b["classes"])
                     if id_blind(a["classes"]) == id_blind(b["classes"]):
-                        # same files; only the coincidence pattern of id()-derived numbers differs: id() reuse without visible effect
+                        # same files; only the coincidence pattern of id()-derived numbers differs: two containers shared an
+                        # id() in one of the runs (cannot happen while the parsed schemas are kept alive, /repo ec91b39)
                         id_only.append({"job": j["id"], "a": labels[0], "b": label, "where": dc[0]})
+                        ck.failure("id-coincidence-pattern-differs",
+                                   f"job {j['id']}: {labels[0]} vs {label}: same files, but different id()-derived numbers coincide at {dc[0]} "
+                                   f"(id() reuse: distinct containers shared an id in one of the runs)",
+                                   dict(replay, first_difference={"where": dc[0], "a": dc[1], "b": dc[2]}))
                     else:
                         ndiff += 1
                         ck.failure(route + "-processed-classes-differ",
@@ -883,7 +888,7 @@ def run(ck: Check):
             else:
                 ck.failure("repeat-run-differs", "two runs with include_header differ beyond the time stamp", {"job": hdr, "first_difference": first_diff(m1, m2)})
 
-    # ---- id() reuse (known finding): compositor ids of released schemas are reused
+    # ---- id() reuse (fixed by /repo ec91b39; kept as a regression witness): compositor ids of released schemas were reused
     if rp is None or (rp.get("job") or {}).get("id") == "idreuse":
         t_id = time.time()
         K = 150
@@ -916,7 +921,7 @@ def run(ck: Check):
         if bad:
             x = min(bad, key=lambda y: len(y["collisions"]))
             other = next((y for y in runs if y["files"] != x["files"]), None)
-            what = (f"{2 * K} distinct xs:sequence compositors in 2 files, one class referring to all of them: under hash seed {x['hashseed']} "
+            what = (f"REGRESSION of the fix /repo ec91b39 (id() reuse): {2 * K} distinct xs:sequence compositors in 2 files, one class referring to all of them: under hash seed {x['hashseed']} "
                     f"only {x['distinct']} sequence numbers are generated; groups merged because their xs:sequence objects got the same id(): "
                     f"{x['collisions'][:4]}")
             if other:
